@@ -21,7 +21,7 @@ FormatErr == {"invalid_start", "invalid_sep", "unequal", "unexpected_end"}
 \* hwL/hwS/setcap: allocation high-water marks (C18)
 InitState(nslots, cap) ==
   [cur |-> 1, mode |-> "stream", lim |-> 0, sets |-> [t \in 1..nslots |-> <<>>], ctx |-> {},
-   cap |-> cap, hwL |-> 0, hwS |-> [t \in 1..nslots |-> <<>>], setcap |-> [t \in 1..nslots |-> 0],
+   cap |-> cap, cap0 |-> cap, hwL |-> 0, hwS |-> [t \in 1..nslots |-> <<>>], setcap |-> [t \in 1..nslots |-> 0],
    nread |-> 0, lcause |-> ""]
 
 \* ---------------------------------------------------------------- comparing records
@@ -64,6 +64,13 @@ PolicyAns(p, c) ==
     [] p.k = "du" -> IF c < p.a THEN 2 * c ELSE c + p.a
     [] p.k = "dul" -> LET n == IF c < p.a THEN 2 * c ELSE c + p.a IN IF n <= p.b THEN n ELSE 0
     [] OTHER -> -1
+\* does the policy, asked again and again from capacity c on as its documentation says it answers, reach a size that
+\* holds `need` bytes? (bounded: the sizes at least double or grow by a fixed step)
+RECURSIVE Permits(_, _, _, _)
+Permits(p, c, need, fuel) ==
+  IF c >= need THEN TRUE
+  ELSE IF fuel = 0 THEN FALSE
+  ELSE LET a == PolicyAns(p, c) IN IF a <= c THEN FALSE ELSE Permits(p, a, need, fuel - 1)
 CapAfter(s, e) == LET g == e.grow
                       ok == {i \in 1..Len(g) : g[i].a > 0}
                   IN IF ok = {} THEN s.cap ELSE g[Max(ok)].a
@@ -85,6 +92,11 @@ GrowViol(s, e, elemLen, needRule) ==
      \* arithmetic, permits the size asked for and refuses it makes the outcome of this configuration differ from the others
      \cup (IF \E i \in 1..Len(g) : PolicyAns(g[i].p, g[i].c) > 0 /\ g[i].a = 0
            THEN {<<"C03", "permitting_policy_refused">>} ELSE {})
+     \* ... and so does a buffer-limit error for a record that the policy, asked from the initial capacity on, would let in
+     \* (the reader has then asked it with sizes the policy never chose)
+     \cup (IF needRule /\ strict /\ "polchange" \notin s.ctx /\ e.res.k = "buffer_limit" /\ s.cap0 > 0 /\ g # <<>> /\ PolicyAns(g[Len(g)].p, s.cap0) >= 0
+              /\ Permits(g[Len(g)].p, s.cap0, elemLen + 1, 40)
+           THEN {<<"C03", "buffer_limit_although_the_policy_permits_the_size">>, <<"C09", "buffer_limit_although_the_policy_permits_the_size">>} ELSE {})
      \cup (IF needRule /\ \E i \in 1..Len(g) : ~(elemLen + 1 > g[i].c)
            THEN {<<"C09", "grew_although_record_fits">>} ELSE {})
      \cup (IF refused # {} /\ Max(refused) # Len(g)
@@ -423,7 +435,8 @@ Judge(fmt, chain, s, e) ==
                 \* record that did not fit is due again (C09: "a policy installed in mid-stream takes over without
                 \* disturbing the stream")
                 [] OTHER -> [viol |-> {}, s |-> IF e.op = "set_policy" /\ s.mode = "limbo" /\ s.lcause = "buffer_limit"
-                                                THEN [s EXCEPT !.mode = "stream", !.cur = s.lim + 1, !.lcause = "", !.ctx = @ \cup {"takeover"}] ELSE s]
+                                                THEN [s EXCEPT !.mode = "stream", !.cur = s.lim + 1, !.lcause = "", !.ctx = @ \cup {"takeover", "polchange"}]
+                                                ELSE IF e.op = "set_policy" THEN [s EXCEPT !.ctx = @ \cup {"polchange"}] ELSE s]
       needRule == s.mode = "stream" /\ e.op \in {"next", "iter", "set"}
       \* C18 (the buffer size stays unchanged while records are no larger): also an exact-count read of ONE
       \* record grows the buffer only if that record does not fit (C09 excludes exact-count reads)
@@ -440,7 +453,7 @@ Judge(fmt, chain, s, e) ==
       \* error, an early end) cannot be reproduced that way
       wellFormed == \A i \in 1..Len(chain) : (chain[i].okRec /\ chain[i].errs = {} /\ ~chain[i].zone)
                                              \/ (i = Len(chain) /\ chain[i].okEnd /\ ~chain[i].okRec /\ chain[i].errs = {})
-      c11 == IF (\E x \in core.viol : x[1] \in {"C01", "C02"}) /\ wellFormed
+      c11 == IF (\E x \in core.viol : x[1] \in {"C01", "C02", "C04", "C06"}) /\ wellFormed /\ e.op \in {"next", "iter", "set", "exact"}
              THEN {<<"C11", "well_formed_input_not_parsed_as_written">>} ELSE {}
   IN [viol |-> core.viol \cup env \cup SetLenViol(e) \cup c11, s |-> [core.s EXCEPT !.cap = cap2, !.ctx = ctx2]]
 =============================================================================
